@@ -151,6 +151,13 @@ def make_case(ctx, rng, cid):
             s.write(d, "fs%d" % sid)
             s.kind = "fixedstruct"
             srcs.append(s)
+    if rng.random() < 0.3:
+        # a file that prints nothing (no timestamp in it) under the widest name: it must not count for the -w width
+        s = cases.Source(90, [], "iso_space", tz_min, None, True)
+        s.path = gen.write(os.path.join(d, "a-very-long-name-of-a-file-that-prints-nothing-%d.log" % cid), b"no timestamp here\nnor here\n" * 3)
+        s.arg = s.path if rng.random() < 0.5 else os.path.relpath(s.path, d)
+        s.kind = "text"
+        srcs.insert(rng.randint(0, len(srcs)), s)
     return d, srcs
 
 
